@@ -18,7 +18,7 @@ META = {
         "BaseException failure, SIGINT to the main thread, KeyboardInterrupt raised in an asyncio or thread "
         "payload, shutdown() from an outside thread or a thread payload, MetaRunner.stop()} x populations of "
         "0-6 coroutine payloads per flavour (sleeping, spinning on zero-length sleeps, blocked, waiting on an awaitable nobody else references - with a forced garbage collection before the trigger -, adopted a few "
-        "statements before the trigger, adopted from other payloads, adopted by a payload's own cleanup while the runtime terminates (hand-over chains 1-3 deep), adopted half way through a 0.2-0.5 s shielded trio cleanup, adopted one per loop turn by dispatcher payloads that are still busy at the trigger, services; cleanup none / synchronous 0-30 ms / stubborn (absorbs 1-3 cancellations before giving up) / for asyncio a finally block awaiting 1-5 zero-length steps / "
+        "statements before the trigger, adopted from other payloads, adopted by a payload's own cleanup while the runtime terminates (hand-over chains 1-3 deep), adopted half way through a 0.2-0.5 s shielded trio cleanup, adopted one per loop turn by dispatcher payloads that are still busy at the trigger, services; cleanup none / synchronous 0-30 ms / stubborn (absorbs 1-3 cancellations before giving up) / for asyncio a finally block awaiting 1-5 zero-length steps or 2-3 pauses of 10 ms / "
         "trio-shielded 0-300 ms) x 0-3 blocked thread payloads x trigger time jitter x line-level delay injection. "
         "Non-trivial = at least one coroutine payload was running at the trigger; distinct by scenario shape."
     ),
@@ -93,9 +93,18 @@ def gen_case(rnd, spec):
     # runner cancels again, so it completes - provided no other asyncio payload blocks the loop meanwhile
     async_mode = rnd.random() < 0.2
     if async_mode:
+        if trigger in ("sigint", "kbint_asyncio", "kbint_thread", "systemexit_asyncio", "systemexit_thread") or rnd.random() < 0.4:
+            # only terminations that do not abort the event loop are judged here: prefer those, above all the requested stops
+            trigger = rnd.choice(["stop", "shutdown_outside", "shutdown_thread", "shutdown_outside", "fail_asyncio", "fail_trio", "fail_thread", "return_trio"])
+        if not any(p["flavour"] == "asyncio" for p in gen["payloads"] + gen["services"]):
+            extra = coroutine_payload(rnd, "c%d" % n, "asyncio")
+            gen["payloads"].append(extra)
+            script.append(["adopt", extra["id"]])
         for p in gen["payloads"] + gen["services"]:
             if p["flavour"] == "asyncio" and not p["id"].startswith("carrier"):
-                p["cleanup"] = rnd.choice([{"kind": "async", "steps": rnd.randint(1, 5)}, {"kind": "async", "steps": 1}, {"kind": "none"}])
+                p["cleanup"] = rnd.choice([{"kind": "async", "steps": rnd.randint(1, 5)}, {"kind": "async", "steps": 1}, {"kind": "none"},
+                                           # or a few short real pauses: 30 ms in all, a third of the runner's 0.1 s between two rounds
+                                           {"kind": "async", "steps": 3, "pause": 0.01}, {"kind": "async", "steps": 2, "pause": 0.01}])
     # hand-over chains: a payload that adopts a successor from its cleanup, i.e. while terminating
     for c in range(0 if async_mode else rnd.choice([0, 0, 1, 1, 2])):
         depth = rnd.randint(1, 3)
@@ -112,7 +121,8 @@ def gen_case(rnd, spec):
                 p["when"] = "queued"
             gen["payloads"].append(p)
     # a trio payload whose (long) shielded cleanup hands work over half way through: the runtime is deep in its termination then
-    for m in range(0 if async_mode else rnd.choice([0, 0, 0, 1, 2])):
+    interrupted = trigger in ("sigint", "kbint_asyncio", "kbint_thread")  # there the runner tasks are cancelled, not awaited
+    for m in range(0 if async_mode else rnd.choice([1, 1, 2] if interrupted else [0, 0, 0, 1, 2])):
         succ = {"id": "late%d" % m, "flavour": rnd.choice(common.FLAVOURS), "cleanup": {"kind": "none"},
                 "program": rnd.choice([[["sleep", 0.01]], [["beat", 0.01, None]]]) if True else None}
         if succ["flavour"] == "threading":
